@@ -338,7 +338,7 @@ impl Property for C14 {
                     blocks.push(Block::Store { addr: 0xffffd0 + *rng.pick(&ports) as u32 - 1, val: marker, short: rng.chance(1, 2) });
                 }
                 8 => blocks.push(Block::Delay(rng.range(1, 20) as u16)),
-                _ => blocks.push(Block::Arith(rng.u8())),
+                _ => blocks.push(if rng.chance(1, 2) { Block::Arith(rng.u8()) } else { Block::Filler(rng.u32()) }),
             }
         }
         blocks.push(Block::Delay(12));
